@@ -54,23 +54,22 @@ fn run_soak(ctx: &Ctx, c: &SoakCase) -> CaseResult {
 /// A completion that never arrives costs the 30 s hang guard per evaluation; shrinking such a
 /// case would take hours. Once a case has hit the guard, every *other* candidate the shrinker
 /// proposes is waved through, so the case is reported as it was generated (it still replays).
-struct HangGate(std::cell::Cell<Option<u64>>);
+struct HangGate(std::cell::RefCell<Option<(u64, vh::runner::Failure)>>);
 
 impl HangGate {
     fn new() -> HangGate {
-        HangGate(std::cell::Cell::new(None))
+        HangGate(std::cell::RefCell::new(None))
     }
     fn run<C: Serialize>(&self, c: &C, f: impl FnOnce() -> CaseResult) -> CaseResult {
         let h = vh::runner::hash_str(&serde_json::to_string(c).unwrap());
-        if let Some(orig) = self.0.get() {
-            if h != orig {
-                return Ok(vh::runner::CaseReport::new());
-            }
+        if let Some((orig, fl)) = &*self.0.borrow() {
+            // the shrinker comes back to the original value many times: its verdict is known
+            return if h == *orig { Err(fl.clone()) } else { Ok(vh::runner::CaseReport::new()) };
         }
         let r = f();
         if let Err(fl) = &r {
             if fl.sig.contains("|hang guard") {
-                self.0.set(Some(h));
+                *self.0.borrow_mut() = Some((h, fl.clone()));
             }
         }
         r
